@@ -126,6 +126,12 @@ ReBinds == {
   BRe("re_empty", GoO("regex", GoS("")), "", FALSE),
   BRe("re_lf", GoO("regex", GoS("a\nb")), "a\nb", FALSE),
   BRe("re_class", GoO("regex", GoS("a\\d")), "a\\d", FALSE),
+  \* a backslash before a slash: the lexer's escape for the delimiter must NOT be applied to a bound pattern
+  BRe("re_bs_slash", GoO("regex", GoS("a\\/b")), "a\\/b", FALSE),
+  BRe("re_bsbs_slash", GoO("regex", GoS("^a\\\\/b$")), "^a\\\\/b$", FALSE),
+  BRe("re_only_bs_slash", GoO("regex", GoS("\\/")), "\\/", FALSE),
+  BRe("re_slashes", GoO("regex", GoS("//")), "//", FALSE),
+  BRe("re_trailing_bs", GoO("regex", GoS("a\\")), "a\\", TRUE),
   BRe("re_quote", GoO("regex", GoS("'; DROP")), "'; DROP", FALSE),
   BRe("re_marker", GoO("regex", GoS("MARK1")), "MARK1", FALSE),
   BRe("re_bad", GoO("regex", GoS("(")), "(", TRUE),
@@ -162,7 +168,7 @@ BindById(id) == CHOOSE b \in AllBinds : b.id = id
 QuickIds == {"str_hello", "str_empty", "str_inject", "str_cm_open", "str_cm_close", "str_dq", "str_bs", "str_lf", "str_kw", "str_dollar_p",
   "str_bs_sq", "str_cr", "str_semi", "str_dashes", "str_tzname", "ostr_inject", "f_1_5", "f_3", "f_1e21", "f_1e_7", "f_neg", "f_inf", "of_number_int", "j_float",
   "i_7", "i_0", "i_neg", "i_max", "i_min", "oi_integer", "j_int", "b_true", "b_false", "d_10s", "d_2h", "d_1h30m", "d_neg", "d_frac", "d_xx",
-  "d_empty", "d_nounit", "d_inject", "di_1500ms", "di_min", "dj_90s", "re_a", "re_slash", "re_empty", "re_lf", "re_quote", "re_bad", "id_x", "id_sp",
+  "d_empty", "d_nounit", "d_inject", "di_1500ms", "di_min", "dj_90s", "re_a", "re_slash", "re_bs_slash", "re_bsbs_slash", "re_empty", "re_lf", "re_quote", "re_bad", "id_x", "id_sp",
   "id_kw", "id_empty", "id_dq", "id_inject", "unbound", "noset", "x_int", "x_nil", "x_slice", "x_value", "o_two", "o_zero", "o_unknown", "o_ident_int",
   "o_int_str", "o_dur_bool", "j_exp", "j_big", "oj_int_float"}
 SecondIds == {"str_inject", "str_hello", "i_7", "i_neg", "f_1_5", "b_true", "d_2h", "re_a", "id_x", "id_kw", "unbound", "x_int"}
